@@ -152,7 +152,8 @@ package chainntnfs
 //@   props C14
 //@   bounds-safe
 //@   loop * havoc
-//@   site store spendNtfnSet.details: assert value == entry(details)
+//@   // a request has at most one spend on record: a second spend of a watched script never replaces the first (finding F35)
+//@   site store spendNtfnSet.details: assert details == nil && value == entry(details)
 //@   site store spendNtfnSet.rescanStatus: assert value == rescanComplete
 //@   site mapupdate spendsByHeight: assert arg(key) == wrap(details.SpendingHeight, 32)
 //@   site mapupdate opSet: assert arg(key) == spendRequest
